@@ -64,7 +64,7 @@ impl Suite for CrashSuite {
     }
     fn generate(&self, seed: u64, tier: &str) -> Vec<Case> {
         let mut r = Rng::new(seed ^ 0xC09);
-        let n = if tier == "thorough" { 120 } else { 10 };
+        let n = if tier == "thorough" { 120 } else { 8 };
         let mut cases = vec![];
         for i in 0..n {
             let with_restart = i % 2 == 0;
@@ -83,7 +83,7 @@ impl Suite for CrashSuite {
             let mut tv = vec![Sx::a("truncate")];
             tv.extend(trunc.into_iter().map(Sx::int));
             items.push(Sx::l(tv));
-            items.push(Sx::l(vec![Sx::a("cap"), Sx::int(if tier == "thorough" { 100000 } else { 40 })]));
+            items.push(Sx::l(vec![Sx::a("cap"), Sx::int(if tier == "thorough" { 100000 } else { 32 })]));
             cases.push(Case { class, input: Sx::l(items) });
         }
         cases
@@ -104,6 +104,7 @@ fn fam(name: &'static str) -> Family {
         odd_names: false,
         compressible: false,
         strings: false,
+        wide_ints: false,
         restarts: true,
         evicts: true,
         bursts: false,
@@ -163,6 +164,7 @@ pub fn all() -> Vec<Box<dyn Suite>> {
                 (Family { cols: Cols::VaryWithin, nulls: true, factors: &[999], ..fam("nulls-no-compaction") }, 8),
                 (Family { cols: Cols::VaryWithin, nulls: true, factors: &[0, 1, 4], max_ops: 8, ..fam("nulls-compaction") }, 6),
                 (Family { strings: true, factors: &[1, 4, 999], restarts: false, ..fam("strings") }, 5),
+                (Family { wide_ints: true, factors: &[0, 1, 4], restarts: false, ..fam("wide-ints") }, 4),
                 (Family { strings: true, hex: true, factors: &[0, 1], restarts: false, max_ops: 6, ..fam("hex-strings") }, 3),
                 (Family { strings: true, compressible: true, factors: &[0, 1], restarts: false, max_ops: 6, ..fam("compressible-strings") }, 2),
             ],
